@@ -250,19 +250,23 @@ def onDisabledVar (s : Sys) (c : Nat) : Sys :=
 
 def addW (p : Policy) (old w : Nat) : Nat := if p = .fatpipe then max old w else old + w
 
-def setW (v i w : Nat) (l : List Entry) : List Entry := l.map (fun y => if isRef v i y then { y with w := w } else y)
+/-- change the weight of the element `(v, i)` (the first one found: there is only one) -/
+def setW (v i w : Nat) : List Entry → List Entry
+  | [] => []
+  | y :: l => if isRef v i y then { y with w := w } :: l else y :: setW v i w l
 
-/-- second half of `expand`, once the element `(v, idx)` with weight `w'` is in place -/
+/-- second half of `expand`: the element is in place and, for an enabled variable, `increase_concurrency(false)`
+has been applied (`expand` below groups the `decrease_concurrency` before `expand_add_to_elem` and this increase in
+one update of the counter; nothing observes the state in between).  Here: the overflow test
+`cnst->get_concurrency_slack() < 0`, then the update of the modified set. -/
 def expandTail (s : Sys) (c v w' : Nat) : Sys :=
   let s :=
     if (s.vars v).pen ≠ 0 then
       let k := s.cnsts c
-      let cur := k.cur + conc k.policy w'          -- increase_concurrency(false)
-      let s := s.setC c { k with cur := cur }
       match k.limit with
       | none => s
       | some lim =>
-        if lim < cur then                          -- get_concurrency_slack() < 0
+        if lim < k.cur then                        -- get_concurrency_slack() < 0
           let penalty := (s.vars v).pen
           let s := disableVar s v
           let s := (s.vars v).cn.foldl onDisabledVar s
@@ -281,14 +285,14 @@ def expand (s : Sys) (c v w : Nat) (force : Bool) : Sys :=
   let k := s.cnsts c
   match (if force then none else x.cn.idxOf? c) with
   | some i =>
-    -- reuse the element: decrease_concurrency (if enabled), expand_add_to_elem
+    -- reuse the element: decrease_concurrency (if enabled), expand_add_to_elem, increase_concurrency(false)
     if x.pen ≠ 0 then
       match k.en.find? (isRef v i) with
       | none => s.fail
       | some e =>
-        if k.cur < conc k.policy e.w then s.fail else
+        if k.cur < conc k.policy e.w then s.fail else     -- xbt_assert in decrease_concurrency
         let w' := addW k.policy e.w w
-        expandTail (s.setC c { k with cur := k.cur - conc k.policy e.w, en := setW v i w' k.en }) c v w'
+        expandTail (s.setC c { k with cur := k.cur - conc k.policy e.w + conc k.policy w', en := setW v i w' k.en }) c v w'
     else
       match k.dis.find? (isRef v i) with
       | none => s.fail
@@ -296,10 +300,11 @@ def expand (s : Sys) (c v w : Nat) (force : Bool) : Sys :=
         let w' := addW k.policy e.w w
         expandTail (s.setC c { k with dis := setW v i w' k.dis }) c v w'
   | none =>
-    -- expand_create_elem
+    -- expand_create_elem (+ increase_concurrency(false) for an enabled variable)
     let e : Entry := ⟨v, x.cn.length, w⟩
     let s := s.setV v { x with cn := x.cn ++ [c] }
-    let s := if x.pen ≠ 0 then s.setC c { k with en := e :: k.en } else s.setC c { k with dis := k.dis ++ [e] }
+    let s := if x.pen ≠ 0 then s.setC c { k with en := e :: k.en, cur := k.cur + conc k.policy w }
+             else s.setC c { k with dis := k.dis ++ [e] }
     let s := if 0 < w ∨ 0 < x.pen then makeActive s c else s
     expandTail s c v w
 
